@@ -2,20 +2,25 @@
    conforming value, that text is the canonical text of the SPEC tree json_of o d v in which every double is spelled by a JSON
    number lexeme denoting exactly its bits. *)
 From Coq Require Import ZArith List Bool Lia.
-From DG Require Import ProtoWireRef ThriftWire ThriftWireProofs Json Num Base64 T2J T2JUnset JsonProofs NumProofs Base64Proofs T2JProofs
+From DG Require Import ProtoWireRef ThriftWire ThriftWireProofs Json Num Base64 T2J T2JUnset JsonProofs NumProofs Base64Proofs T2JProofs T2JUnsetProofs
                        T2JBytes T2JBytesProofs T2JBytesCmp.
 Import ListNotations.
 Local Open Scope Z_scope.
 
-(* the canonical text of an expected tree as tokens *)
+(* the text of an expected tree (jexp_print) as tokens *)
 Fixpoint jtoks (e : jexp) : list tok :=
   match e with
   | EBool b => [TBytes (if b then lit_true else lit_false)]
   | EInt z => [TBytes (fmt_int z)]
   | EDouble b => [TDouble b]
   | EStr s | EStrV s => [TBytes (quote_ref s)]
-  | EByteV z => [TBytes (quote_ref (fmt_int z))]
-  | EQuoted e' => match e' with EInt z => [TBytes (quote_ref (fmt_int z))] | _ => [] end
+  | EByteV z => [TBytes (34 :: fmt_int z ++ [34])]
+  | EQuoted e' =>
+    match e' with
+    | EInt z => [TBytes (34 :: fmt_int z ++ [34])]
+    | EDouble b => [TBytes [34]; TDouble b; TBytes [34]]
+    | _ => jtoks e'
+    end
   | EArr xs =>
     TBytes [91] :: match xs with
                    | [] => [TBytes [93]]
@@ -29,11 +34,11 @@ Fixpoint jtoks (e : jexp) : list tok :=
                     end
   end.
 
-(* the trees the walk's options produce: only integers are quoted; double bits are non-negative *)
+(* double bits are non-negative (they are read off 8 bytes, or are the zero of a written unset field) *)
 Fixpoint wshape (e : jexp) : bool :=
   match e with
   | EDouble b => 0 <=? b
-  | EQuoted e' => match e' with EInt _ => true | _ => false end
+  | EQuoted e' => wshape e'
   | EArr xs => forallb wshape xs
   | EObj ms => forallb (fun m => wshape (snd m)) ms
   | _ => true
@@ -47,42 +52,40 @@ Qed.
 Section Print.
   Variable fd : Z -> list Z.
 
-  Lemma print_tail_toks l : Forall (fun e => wshape e = true -> json_print (to_json_fd fd e) = render fd (jtoks e)) l ->
-    forallb wshape l = true ->
-    print_tail json_print 93 (map (to_json_fd fd) l) = render fd (flat_map (fun y => TBytes [44] :: jtoks y) l ++ [TBytes [93]]).
+  Lemma print_tail_toks l : Forall (fun e => jexp_print fd e = render fd (jtoks e)) l ->
+    eprint_tail (jexp_print fd) l = render fd (flat_map (fun y => TBytes [44] :: jtoks y) l ++ [TBytes [93]]).
   Proof.
-    induction l as [|y l IH]; intros HF Hw; [reflexivity|].
-    inversion HF as [|? ? Hy HF']; subst. cbn [forallb] in Hw. apply andb_true_iff in Hw. destruct Hw as [Hwy Hwl].
-    cbn [map print_tail flat_map]. rewrite <- app_assoc. cbn [app render]. rewrite render_app.
-    rewrite (Hy Hwy), (IH HF' Hwl). rewrite render_app. reflexivity.
+    induction l as [|y l IH]; intros HF; [reflexivity|].
+    inversion HF as [|? ? Hy HF']; subst.
+    cbn [eprint_tail flat_map]. rewrite <- app_assoc. cbn [app render]. rewrite render_app.
+    rewrite Hy, (IH HF'). reflexivity.
   Qed.
 
-  Lemma print_mtail_toks (l : list (list Z * jexp)) :
-    Forall (fun m => wshape (snd m) = true -> json_print (to_json_fd fd (snd m)) = render fd (jtoks (snd m))) l ->
-    forallb (fun m => wshape (snd m)) l = true ->
-    print_mtail json_print (map (fun m => (fst m, to_json_fd fd (snd m))) l) =
+  Lemma print_mems_toks (l : list (list Z * jexp)) :
+    Forall (fun m => jexp_print fd (snd m) = render fd (jtoks (snd m))) l ->
+    eprint_mems (jexp_print fd) l ++ [125] =
     render fd (flat_map (fun y => TBytes (44 :: quote_ref (fst y) ++ [58]) :: jtoks (snd y)) l ++ [TBytes [125]]).
   Proof.
-    induction l as [|y l IH]; intros HF Hw; [reflexivity|].
-    inversion HF as [|? ? Hy HF']; subst. cbn [forallb] in Hw. apply andb_true_iff in Hw. destruct Hw as [Hwy Hwl].
-    cbn [map print_mtail flat_map]. unfold print_member. cbn [fst snd].
+    induction l as [|y l IH]; intros HF; [reflexivity|].
+    inversion HF as [|? ? Hy HF']; subst.
+    cbn [eprint_mems flat_map]. unfold eprint_member. cbn [fst snd].
     rewrite <- (app_assoc (TBytes (44 :: quote_ref (fst y) ++ [58]) :: jtoks (snd y))).
     cbn [app render]. rewrite render_app.
-    rewrite (Hy Hwy), (IH HF' Hwl). f_equal. rewrite <- !app_assoc. reflexivity.
+    rewrite Hy, <- (IH HF'). f_equal. rewrite <- !app_assoc. reflexivity.
   Qed.
 
-  Lemma print_toks : forall e, wshape e = true -> json_print (to_json_fd fd e) = render fd (jtoks e).
+  Lemma print_toks : forall e, jexp_print fd e = render fd (jtoks e).
   Proof.
-    induction e as [b | z | b | s | e IH | s | z | xs IH | ms IH] using jexp_ind'; intros Hw; 
-      cbn [to_json_fd jtoks json_print render wshape] in *; rewrite ?app_nil_r; try reflexivity.
-    - destruct e; try discriminate Hw. cbn [to_json_fd json_print render]. rewrite app_nil_r. reflexivity.
+    induction e as [b | z | b | s | e IH | s | z | xs IH | ms IH] using jexp_ind';
+      cbn [jexp_print jtoks render] in *; rewrite ?app_nil_r; try reflexivity.
+    - destruct e; try exact IH; cbn [render]; rewrite ?app_nil_r; reflexivity.
     - destruct xs as [|x l]; [reflexivity|].
-      inversion IH as [|? ? Hx Hl]; subst. cbn [forallb] in Hw. apply andb_true_iff in Hw. destruct Hw as [Hwx Hwl].
-      cbn [map]. rewrite render_app. rewrite (Hx Hwx). rewrite (print_tail_toks l Hl Hwl). reflexivity.
+      inversion IH as [|? ? Hx Hl]; subst.
+      rewrite render_app. rewrite Hx. rewrite (print_tail_toks l Hl). reflexivity.
     - destruct ms as [|m l]; [reflexivity|].
-      inversion IH as [|? ? Hm Hl]; subst. cbn [forallb] in Hw. apply andb_true_iff in Hw. destruct Hw as [Hwm Hwl].
-      cbn [map]. unfold print_member. cbn [fst snd render]. rewrite render_app. rewrite (Hm Hwm).
-      rewrite (print_mtail_toks l Hl Hwl). rewrite <- !app_assoc. reflexivity.
+      inversion IH as [|? ? Hm Hl]; subst.
+      unfold eprint_member. cbn [fst snd render]. rewrite render_app. rewrite Hm.
+      rewrite (print_mems_toks l Hl). rewrite <- !app_assoc. reflexivity.
   Qed.
 End Print.
 
@@ -120,6 +123,9 @@ Qed.
 Lemma fmt_int_no1 z : no1 (fmt_int z).
 Proof. apply plain_no1, fmt_int_all_plain. Qed.
 
+Lemma quoted_no1 b : no1 b -> no1 (34 :: b ++ [34]).
+Proof. intros H. apply (no1_app [34]); [repeat constructor; discriminate|]. apply no1_app; [exact H | repeat constructor; discriminate]. Qed.
+
 Lemma Forall_tok_app a b : Forall tok_ok a -> Forall tok_ok b -> Forall tok_ok (a ++ b).
 Proof. intros Ha Hb. apply Forall_app. split; assumption. Qed.
 
@@ -131,9 +137,12 @@ Proof.
   - constructor; [|constructor]. exact (fmt_int_no1 z).
   - constructor; [|constructor]. cbn [tok_ok]. apply Z.leb_le. exact Hw.
   - constructor; [|constructor]. exact (quote_ref_no1 s Hb).
-  - destruct e; try discriminate Hw. constructor; [|constructor]. apply quote_ref_no1, fmt_int_bytes.
+  - destruct e; try exact (IH Hb Hw).
+    + constructor; [|constructor]. exact (quoted_no1 _ (fmt_int_no1 z)).
+    + cbn [wshape] in Hw. constructor; [repeat constructor; discriminate|]. constructor; [cbn [tok_ok]; apply Z.leb_le; exact Hw|].
+      repeat constructor; discriminate.
   - constructor; [|constructor]. exact (quote_ref_no1 s Hb).
-  - constructor; [|constructor]. apply quote_ref_no1, fmt_int_bytes.
+  - constructor; [|constructor]. exact (quoted_no1 _ (fmt_int_no1 z)).
   - constructor; [repeat constructor; discriminate|].
     destruct xs as [|x l]; [repeat constructor; discriminate|].
     inversion IH as [|? ? Hx Hl]; subst. cbn [forallb] in Hb, Hw.
@@ -205,37 +214,191 @@ Proof.
     rewrite Forall_forall in IH. exact (IH y Hin de e' (wf_list_elems _ _ Hw y Hin) Hy).
 Qed.
 
-(* ---- check 304 accepts only the canonical text of the spec tree, doubles spelled by lexemes denoting their bits ---- *)
-Theorem check304_sound o v d n r m r' out : o_value_mapping o = false -> o_write_default o = false -> o_write_required o = false ->
+(* ---- the same for every option (spec json_ofw: js_conv members, written unset fields) and for the root spec ---- *)
+Lemma jsconv_scalar_wshape o x e : wf x = true -> jsconv_scalar o x = TOk e -> wshape e = true.
+Proof.
+  intros Hw H. destruct x; cbn [jsconv_scalar] in H; inversion H; subst; try reflexivity.
+  cbn [wshape]. cbn [wf] in Hw. apply andb_true_iff in Hw. exact (proj1 Hw).
+Qed.
+
+Lemma jsconv_wshape o x e : wf x = true -> jsconv o x = TOk e -> wshape e = true.
+Proof.
+  intros Hw H. destruct x; try (exact (jsconv_scalar_wshape o _ e Hw H)).
+  cbn [jsconv] in H. destruct (all_ok (map (jsconv_scalar o) elems)) as [xs|] eqn:E; [|discriminate]. inversion H; subst.
+  cbn [wshape]. apply forallb_Forall_true.
+  apply (all_ok_forall _ xs (fun e => wshape e = true) E).
+  intros e' He'. apply in_map_iff in He'. destruct He' as (y & Hy & Hin).
+  exact (jsconv_scalar_wshape o y e' (wf_list_elems _ _ Hw y Hin) Hy).
+Qed.
+
+Lemma zero_wshape d : wshape (zero_of d) = true.
+Proof.
+  destruct d as [t|b|fs|dk dv|s de]; try reflexivity.
+  cbn [zero_of]. destruct (t =? T_BOOL); [reflexivity|]. destruct (t =? T_DOUBLE); reflexivity.
+Qed.
+
+Lemma unset_walk_wshape o : forall l p us, unset_walk o l p = inl us -> forallb (fun m => wshape (snd m)) us = true.
+Proof.
+  intros l p us H. apply forallb_forall. intros m Hm.
+  destruct (unset_walk_sound o l p us H m Hm) as (f & _ & -> & _). cbn [snd]. apply zero_wshape.
+Qed.
+
+Lemma json_ofw_wshape o : forall v d e, wf v = true -> json_ofw o d v = TOk e -> wshape e = true.
+Proof.
+  induction v as [b | z | z | z | z | z | s | vs IH | kt vt es IH | et es IH | et es IH] using tval_ind';
+    intros d e Hw H; cbn [json_ofw] in H.
+  - inversion H; reflexivity.
+  - inversion H; reflexivity.
+  - inversion H; reflexivity.
+  - inversion H; reflexivity.
+  - inversion H. destruct (o_int642string o); reflexivity.
+  - inversion H. cbn [wshape]. cbn [wf] in Hw. apply andb_true_iff in Hw. exact (proj1 Hw).
+  - destruct d as [| [|] | | |]; inversion H; reflexivity.
+  - destruct d as [| | fs | |]; try discriminate.
+    match type of H with match members_of ?l with _ => _ end = _ => destruct (members_of l) as [ms|] eqn:E end; [|discriminate].
+    destruct (unset_members o fs (map fst vs)) as [us|] eqn:Eu; [|discriminate]. inversion H; subst.
+    cbn [wshape]. rewrite forallb_app. apply andb_true_iff. split; [|exact (unset_walk_wshape o _ _ us Eu)].
+    apply forallb_Forall_true.
+    apply (members_of_forall _ ms (fun k e => wshape e = true) E).
+    intros k e' Hin. apply in_map_iff in Hin. destruct Hin as (iv & Hg & Hiv).
+    destruct (find_field fs (fst iv)) as [f|] eqn:Ef; [|destruct (o_disallow_unknown o); discriminate].
+    pose proof (wf_struct_fields vs Hw iv Hiv) as Hwx.
+    destruct (o_value_mapping o && f_jsconv (fst f)).
+    + destruct (jsconv o (snd iv)) as [e1|e1|c1] eqn:Ej; inversion Hg; subst. exact (jsconv_wshape o _ _ Hwx Ej).
+    + destruct (json_ofw o (snd f) (snd iv)) as [e1|e1|c1] eqn:Ej; inversion Hg; subst.
+      rewrite Forall_forall in IH. exact (IH iv Hiv (snd f) e' Hwx Ej).
+  - destruct d as [| | | dk dv |]; try discriminate.
+    match type of H with match keyed ?a ?b with _ => _ end = _ => destruct (keyed a b) as [ms|] eqn:E end; [|discriminate].
+    inversion H; subst. cbn [wshape]. apply forallb_Forall_true.
+    rewrite Forall_forall in IH.
+    apply (keyed_forall _ _ ms (fun k e => wshape e = true) E).
+    intros k Hk e' He'. apply in_map_iff in He'. destruct He' as (en' & Hval & Hen').
+    destruct (wf_map_entries _ _ _ Hw en' Hen') as [_ Hwv].
+    exact (proj2 (IH en' Hen') dv e' Hwv Hval).
+  - destruct d as [| | | | s de]; try discriminate.
+    destruct (all_ok (map (json_ofw o de) es)) as [xs|] eqn:E; [|discriminate]. inversion H; subst.
+    cbn [wshape]. apply forallb_Forall_true.
+    apply (all_ok_forall _ xs (fun e => wshape e = true) E).
+    intros e' He'. apply in_map_iff in He'. destruct He' as (y & Hy & Hin).
+    rewrite Forall_forall in IH. exact (IH y Hin de e' (wf_set_elems _ _ Hw y Hin) Hy).
+  - destruct d as [| | | | s de]; try discriminate.
+    destruct (all_ok (map (json_ofw o de) es)) as [xs|] eqn:E; [|discriminate]. inversion H; subst.
+    cbn [wshape]. apply forallb_Forall_true.
+    apply (all_ok_forall _ xs (fun e => wshape e = true) E).
+    intros e' He'. apply in_map_iff in He'. destruct He' as (y & Hy & Hin).
+    rewrite Forall_forall in IH. exact (IH y Hin de e' (wf_list_elems _ _ Hw y Hin) Hy).
+Qed.
+
+(* ---- check 304 accepts only the text of the spec tree, doubles spelled by lexemes denoting their bits: EVERY option ---- *)
+Theorem check304_sound o v d n r m r' out :
   wf v = true -> conforms v d = true -> desc_wf d = true -> desc_ok d = true ->
   (depth v <= n)%nat -> (depth v <= max_skip_depth)%nat ->
   t2j_walk_gen fd_mark o n d (encode v ++ r) = Some (m, r') ->
   text_agrees (S (length m)) m out = true ->
-  exists e, json_of o d v = TOk e /\ jexp_finite e = true /\ agrees (jtoks e) out.
+  exists e, json_ofw o d v = TOk e /\ jexp_finite e = true /\ agrees (jtoks e) out.
 Proof.
-  intros Hvm Hwd Hwr Hw Hc Hdw Hdo Hd Hs Hwalk Hag.
-  rewrite (walk_refines fd_mark o Hvm Hwd Hwr v d n r Hw Hc Hdw Hd Hs) in Hwalk.
-  unfold walk_spec, spec_text_fd in Hwalk.
-  destruct (json_of o d v) as [e|e|c] eqn:E; try discriminate.
+  intros Hw Hc Hdw Hdo Hd Hs Hwalk Hag.
+  rewrite (walk_refines_w fd_mark o v d n r Hw Hc Hdw Hd Hs) in Hwalk.
+  unfold walk_spec, spec_text_p in Hwalk.
+  destruct (json_ofw o d v) as [e|e|c] eqn:E; try discriminate.
   destruct (jexp_finite e) eqn:Ef; [|discriminate]. inversion Hwalk; subst m r'.
   exists e. split; [reflexivity|]. split; [exact Ef|].
-  pose proof (json_of_wshape o Hvm v d e Hw E) as Hsh.
-  pose proof (json_of_bytes o v d e Hw Hdo E) as Hby.
-  rewrite (print_toks fd_mark e Hsh) in Hag.
+  pose proof (json_ofw_wshape o v d e Hw E) as Hsh.
+  pose proof (json_ofw_bytes o v d e Hw Hdo E) as Hby.
+  rewrite (print_toks fd_mark e) in Hag.
   exact (text_agrees_sound (jtoks e) _ out (jtoks_ok e Hby Hsh) (Nat.lt_succ_diag_r _) Hag).
 Qed.
 
 (* the walk's own text is of that form: the exact text and every accepted text differ at double lexemes only *)
-Theorem walk_text_tokens o v d n r txt r' : o_value_mapping o = false -> o_write_default o = false -> o_write_required o = false ->
+Theorem walk_text_tokens o v d n r txt r' :
   wf v = true -> conforms v d = true -> desc_wf d = true ->
   (depth v <= n)%nat -> (depth v <= max_skip_depth)%nat ->
   t2j_walk n o d (encode v ++ r) = Some (txt, r') ->
-  exists e, json_of o d v = TOk e /\ txt = render f64_exact_lexeme (jtoks e).
+  exists e, json_ofw o d v = TOk e /\ txt = render f64_exact_lexeme (jtoks e).
 Proof.
-  intros Hvm Hwd Hwr Hw Hc Hdw Hd Hs Hwalk. unfold t2j_walk in Hwalk.
-  rewrite (walk_refines f64_exact_lexeme o Hvm Hwd Hwr v d n r Hw Hc Hdw Hd Hs) in Hwalk.
-  unfold walk_spec, spec_text_fd in Hwalk.
-  destruct (json_of o d v) as [e|e|c] eqn:E; try discriminate.
+  intros Hw Hc Hdw Hd Hs Hwalk. unfold t2j_walk in Hwalk.
+  rewrite (walk_refines_w f64_exact_lexeme o v d n r Hw Hc Hdw Hd Hs) in Hwalk.
+  unfold walk_spec, spec_text_p in Hwalk.
+  destruct (json_ofw o d v) as [e|e|c] eqn:E; try discriminate.
   destruct (jexp_finite e); [|discriminate]. inversion Hwalk; subst.
-  exists e. split; [reflexivity|]. apply print_toks. exact (json_of_wshape o Hvm v d e Hw E).
+  exists e. split; [reflexivity|]. apply print_toks.
+Qed.
+
+(* ------------------------------------------------------------------ completeness of check 304's comparison ----
+   in the token sequence of a tree every double is followed by a byte that cannot continue a number *)
+Lemma sep_ok_app_bytes a r : (forall t, In t a -> match t with TBytes _ => True | TDouble _ => False end) -> sep_ok r -> sep_ok (a ++ r).
+Proof.
+  intros Ha Hr. induction a as [|t a IH]; [exact Hr|]. cbn [app].
+  pose proof (Ha t (or_introl eq_refl)) as Ht. destruct t; [|destruct Ht]. cbn [sep_ok]. apply IH. intros t' H'. apply Ha. right. exact H'.
+Qed.
+
+Definition SepP (e : jexp) : Prop := forall r, starts_sep r -> sep_ok r -> sep_ok (jtoks e ++ r) /\ (jtoks e <> [] ).
+
+Lemma jtoks_nonnil : forall e, jtoks e <> [].
+Proof.
+  induction e as [b | z | b | s | e IH | s | z | xs IH | ms IH] using jexp_ind'; cbn [jtoks]; try discriminate.
+  destruct e; try discriminate; exact IH.
+Qed.
+
+Lemma sep_tail_elems l r : Forall (fun e => forall r, starts_sep r -> sep_ok r -> sep_ok (jtoks e ++ r)) l ->
+  sep_ok r ->
+  sep_ok (flat_map (fun y => TBytes [44] :: jtoks y) l ++ TBytes [93] :: r) /\
+  starts_sep (flat_map (fun y => TBytes [44] :: jtoks y) l ++ TBytes [93] :: r).
+Proof.
+  intros HF Hr. induction l as [|y l IH]; [split; [exact Hr | reflexivity]|].
+  inversion HF as [|? ? Hy HF']; subst. destruct (IH HF') as [I1 I2].
+  cbn [flat_map]. rewrite <- app_assoc. cbn [app sep_ok]. split; [|reflexivity].
+  apply Hy; assumption.
+Qed.
+
+Lemma sep_tail_mems (l : list (list Z * jexp)) r :
+  Forall (fun m => forall r, starts_sep r -> sep_ok r -> sep_ok (jtoks (snd m) ++ r)) l ->
+  sep_ok r ->
+  sep_ok (flat_map (fun y => TBytes (44 :: quote_ref (fst y) ++ [58]) :: jtoks (snd y)) l ++ TBytes [125] :: r) /\
+  starts_sep (flat_map (fun y => TBytes (44 :: quote_ref (fst y) ++ [58]) :: jtoks (snd y)) l ++ TBytes [125] :: r).
+Proof.
+  intros HF Hr. induction l as [|y l IH]; [split; [exact Hr | reflexivity]|].
+  inversion HF as [|? ? Hy HF']; subst. destruct (IH HF') as [I1 I2].
+  cbn [flat_map]. rewrite <- app_assoc. cbn [app sep_ok]. split; [|reflexivity].
+  apply Hy; assumption.
+Qed.
+
+Lemma jtoks_sep : forall e r, starts_sep r -> sep_ok r -> sep_ok (jtoks e ++ r).
+Proof.
+  induction e as [b | z | b | s | e IH | s | z | xs IH | ms IH] using jexp_ind'; intros r Hs Hr; cbn [jtoks].
+  - exact Hr.
+  - exact Hr.
+  - cbn [app sep_ok]. split; assumption.
+  - exact Hr.
+  - destruct e; try exact (IH r Hs Hr); cbn [app sep_ok]; try exact Hr.
+    split; [reflexivity|exact Hr].
+  - exact Hr.
+  - exact Hr.
+  - cbn [app sep_ok]. destruct xs as [|x l]; [exact Hr|].
+    inversion IH as [|? ? Hx Hl]; subst. destruct (sep_tail_elems l r Hl Hr) as [I1 I2].
+    rewrite <- !app_assoc. cbn [app]. apply Hx; assumption.
+  - cbn [app sep_ok]. destruct ms as [|m l]; [exact Hr|].
+    inversion IH as [|? ? Hm Hl]; subst. destruct (sep_tail_mems l r Hl Hr) as [I1 I2].
+    cbn [app sep_ok]. rewrite <- !app_assoc. cbn [app]. apply Hm; assumption.
+Qed.
+
+Lemma jtoks_sep_ok e : sep_ok (jtoks e).
+Proof. rewrite <- (app_nil_r (jtoks e)). apply jtoks_sep; exact I. Qed.
+
+(* check 304 never raises a false alarm on the text: whatever spells the spec tree with correctly rounded double lexemes
+   (any JSON number lexeme denoting the bits) is accepted against the marker walk's text *)
+Theorem check304_complete o v d n r m r' out e :
+  wf v = true -> conforms v d = true -> desc_wf d = true -> desc_ok d = true ->
+  (depth v <= n)%nat -> (depth v <= max_skip_depth)%nat ->
+  t2j_walk_gen fd_mark o n d (encode v ++ r) = Some (m, r') ->
+  json_ofw o d v = TOk e -> agrees (jtoks e) out ->
+  text_agrees (S (length m)) m out = true.
+Proof.
+  intros Hw Hc Hdw Hdo Hd Hs Hwalk E Hag.
+  rewrite (walk_refines_w fd_mark o v d n r Hw Hc Hdw Hd Hs) in Hwalk.
+  unfold walk_spec, spec_text_p in Hwalk. rewrite E in Hwalk.
+  destruct (jexp_finite e); [|discriminate]. inversion Hwalk; subst m r'.
+  rewrite (print_toks fd_mark e).
+  apply (text_agrees_complete (jtoks e) out Hag); [|apply jtoks_sep_ok|apply Nat.lt_succ_diag_r].
+  exact (jtoks_ok e (json_ofw_bytes o v d e Hw Hdo E) (json_ofw_wshape o v d e Hw E)).
 Qed.
